@@ -26,5 +26,7 @@ def run(tier, seed):
     rep.assumptions.append('frame clause of the child contract: a child does not change user-visible names that are in scope at its entry '
                            '(G-scope is proved for every class under this hypothesis; it FAILS for Let itself - known finding)')
     rep.assumptions.append('bindings are python locals of the generated function: activations cannot share them (CPython semantics; no global/nonlocal is emitted - checked in C18)')
+    # the scope tracker that decides which names are local / captured (bounded stand-in for a data-structure contract)
+    wiring.symbol_counter_obligations(rep, tier)
     dependency_layer(rep, tier)
     return rep.finish()
